@@ -10,7 +10,7 @@ import gtree as T           # noqa: E402
 import pylite_io as P       # noqa: E402
 
 PROP = "C03"
-DEPS = ["Spec/Reader.v", "Proofs/ReaderThm.v", "Spec/Ebnf.v", "Gen/Grammar.v", "Model/Walker.v", "Model/Edge.v", "Proofs/WalkerThm.v"]
+DEPS = ["Spec/Reader.v", "Proofs/ReaderThm.v", "Spec/Ebnf.v", "Gen/Grammar.v", "Model/Walker.v", "Model/Edge.v", "Proofs/WalkerThm.v", "Gen/WalkerGen.v", "Proofs/WalkerGenThm.v"]
 MODS = ["2Ac", "6S", "3Me", "NAc", "A", "4P", "6d", "2,3-Anhydro-", "N", "5Gc", "9Ac", "2F", "3oxoMyr", "-ol", "f", "p", "6Pam"]
 
 
